@@ -65,6 +65,15 @@ CHECKS['C20'] = dict(cat='model_checking', ref='5/C20',
     note='Real time is used only with margins (30 ms retry interval, requests arriving within 10 ms of an update count as started before it); the harness settles before every update.',
     tech='TLA+ model with object identity; TLC exhaustive interleavings + liveness; TLC-derived schedules executed on real explorer; TLC evaluation of history formulas')
 
+CHECKS['C02'] = dict(cat='model_checking', ref='5/C02',
+    text='spec/Pipeline.tla specifies, for a job shape and the label set a target has after relabeling, what plain Prometheus and what the kvass chain make of it (final labels, scheme/host/path/query really requested); TLC enumerates the whole universe (2 schemes x 2 paths x 3 param shapes x 5 address forms incl. IPv6 and missing ports x relabelled scheme/path/configured param/unconfigured param/instance x valid, invalid-name and __tmp labels = 34 560 cases) and shows on the model where the paths differ; every case (quick: 4 000 by seed) is rendered to a real config and target group and run through the vendored Prometheus and through the real chain named in the property (Run -> ActiveTargetsByHash -> JSON -> injector file -> config.Load -> TargetsFromGroup -> Proxy.ServeHTTP -> URL at JobInfo.Cli); TLC (PipelineEval) decides sharded = plain on the observations.',
+    note='The plain side is the vendored Prometheus library: a disagreement between model and plain side is a model error (exit 2). Relabel programs are rendered as constant replace rules; general regex semantics are the library\'s.',
+    tech='TLA+ two-path label/URL model; TLC exhaustive enumeration; differential replay against vendored Prometheus; TLC evaluation on observations')
+CHECKS['C15'] = dict(cat='model_checking', ref='5/C15',
+    text='Same universe and replay as C02; the specification supplies the identity key of every case (all labels after relabeling + URL); the real hash from TargetsDiscovery must be one per target, unchanged when labels move between target and group, when the target is listed twice, in a second round with a fresh discovery and in another process, and the relation identity key <-> hash over all cases must be a bijection (equal identities collapse to one hash, identities differing in any label value, param, path, scheme or address get different hashes); evaluated by TLC (PipelineEval).',
+    note='Collision-freeness of the 64-bit FNV hash outside the enumerated universe is not decided.',
+    tech='TLA+ identity key; TLC enumeration; real hashes across arrangements, rounds and processes; TLC evaluation on observations')
+
 ALL = ['C%02d' % i for i in range(1, 21)]
 
 
